@@ -30,6 +30,7 @@ ID = "C11"
 LEVEL = "model_checking"
 ASSUMPTIONS = [
     "paths: every path of the generated regular tests (static and dynamic parameters, guards using add/mul/div/mod/sdiv/smod/exp/addmod/mulmod/keccak/storage) and of generated invariant projects at depth 2, each with and without --cache-solver",
+    "histories: every ordered pair (thorough: every permutation) of four tests that constrain a symbol created in setUp(): the set of queries of the joint run must equal the union of the sets of each test run alone from a fresh process state (differential oracle; symbol uids renumbered)",
     "the comparison reads the query back with z3's SMT-LIB parser (parsing only; no satisfiability query is made by the check)",
     "solver replies come from a scripted solver that answers `sat` with a model interpreting an f_evm_ symbol, so that halmos refines every query; a subset is also run with the real z3",
     "refined definitions are evaluated (z3 simplification of ground terms) on {0,1,2,3,7,2^(N-1)-1,2^(N-1),2^(N-1)+1,2^N-2,2^N-1}^2 for N in {256,264,512}",
@@ -331,8 +332,99 @@ def run_group(acc, kind, payload, cache, solver):
         acc.sample({"case": label0, "conditions": len(conds), "cache": c, "query_head": q.smtlib[:300]})
 
 
+# ---------------------------------------------------------------------------
+# histories over a shared setUp symbol: the queries of a test do not depend on which tests ran before it
+# ---------------------------------------------------------------------------
+
+UID_IN_NAME = re.compile(r"_([0-9a-f]{7})_(\d\d)\b")
+
+
+def norm_query(q):
+    """the set of assertions of a query (read back with z3's parser), with the cache's assertion ids dropped and the uid part of symbol
+    names renumbered in order of appearance"""
+    seen = {}
+
+    def ren(m):
+        return "_u%d_%s" % (seen.setdefault(m.group(1), len(seen)), m.group(2))
+
+    out = []
+    for a in parse_assertions(q.smtlib):
+        if z3.is_implies(a) and z3.is_const(a.arg(0)) and a.arg(0).decl().name().isdigit():
+            a = a.arg(1)
+        out.append(UID_IN_NAME.sub(ren, a.sexpr()))
+    return frozenset(out)
+
+
+def shared_contract():
+    """setUp() stores a fresh symbol s; every test constrains s on its fall-through path"""
+    x = e2e.arg(0)
+    s_ = ["PUSH0", "SLOAD"]
+    new_s = e2e.svm("createUint256(string)", [("push", 32)], retsize=32, mem=0x80, pop=True) + [("push", 0x80), "MLOAD"]
+    funcs = {
+        "setUp()": new_s + ["PUSH0", "SSTORE", "STOP"],
+        # if (s > 100) revert; if (x == 3) fail
+        "check_a(uint256)": e2e.if_then([("push", 100)] + s_ + ["GT"], e2e.revert0(), "r") + e2e.if_then(x + [("push", 3), "EQ"], e2e.panic(1), "f") + ["STOP"],
+        # if (s > 1000) { if (x == 1) fail }
+        "check_b(uint256)": e2e.if_then([("push", 1000)] + s_ + ["GT", "ISZERO"], ["STOP"], "r") + e2e.if_then(x + [("push", 1), "EQ"], e2e.panic(1), "f") + ["STOP"],
+        # vm.assume(s != 50 is not needed): if (s == 50) fail
+        "check_c(uint256)": e2e.if_then(s_ + [("push", 50), "EQ"], e2e.panic(1), "f") + ["STOP"],
+        # vm.assume(s < 10); if (x == s) fail
+        "check_d(uint256)": e2e.vm("assume(bool)", [("push", 10)] + s_ + ["LT"]) + e2e.if_then(x + s_ + ["EQ"], e2e.panic(1), "f") + ["STOP"],
+    }
+    return e2e.Contract("H", funcs)
+
+
+SHARED_TESTS = ["check_a(uint256)", "check_b(uint256)", "check_c(uint256)", "check_d(uint256)"]
+
+
+def run_shared(order, cache):
+    opts = {"solver_timeout_assertion": "5s", "solver_command": f"{PY} {STUB} unsat"}
+    if cache:
+        opts["cache_solver"] = True
+    seams.start()
+    try:
+        rr = e2e.run_contract(shared_contract(), funsigs=list(order), options=opts)
+    finally:
+        smt2, dumps = seams.stop()
+    return rr, {norm_query(q) for (_, _, q, _) in smt2}
+
+
+def check_shared_history(acc, order, cache):
+    """the set of queries produced by running `order` in one contract run equals the union of the sets produced by each test run alone"""
+    label = f"shared:{'>'.join(t.split('(')[0] for t in order)}:cache={int(cache)}"
+    case = {"kind": "shared", "order": list(order), "cache": cache}
+    acc.count("contracts")
+    rr, together = run_shared(order, cache)
+    if rr.exception is not None or len(rr.results) != len(order):
+        acc.violation(f"crash:{label}", f"{label}: run_contract gave {rr.exception!r} / {len(rr.results)} results", case)
+        return
+    alone = set()
+    for t in order:
+        rr1, qs = run_shared([t], cache)
+        if rr1.exception is not None:
+            acc.violation(f"crash:{label}", f"{label}: run_contract([{t}]) raised {rr1.exception!r}", case)
+            return
+        alone |= qs
+    acc.count("queries", len(together))
+    acc.count("history_queries_compared", len(together))
+    if together != alone:
+        extra = [sorted(q) for q in together - alone][:1]
+        missing = [sorted(q) for q in alone - together][:1]
+        acc.violation(f"history:{label}", f"{label}: the queries of a test depend on the tests run before it from the same setUp state: only in the joint run {str(extra)[:500]}; only when run alone {str(missing)[:500]}", case)
+        return
+    acc.outcome(("shared", cache, len(together)))
+    acc.state(label)
+
+
 def shards(tier, seed):
     out = []
+    orders = list(itertools.permutations(SHARED_TESTS, 2)) + [tuple(SHARED_TESTS), tuple(reversed(SHARED_TESTS))]
+    if tier == "thorough":
+        orders = list(itertools.permutations(SHARED_TESTS, 2)) + list(itertools.permutations(SHARED_TESTS, 4))
+    for k, o in enumerate(orders):
+        out.append({"kind": "shared", "payload": list(o), "cache": bool(k % 2) if tier == "quick" else False, "solver": "stub"})
+        if tier == "thorough":
+            out.append({"kind": "shared", "payload": list(o), "cache": True, "solver": "stub"})
     for g in regular_groups(tier):
         for cache in (False, True):
             out.append({"kind": "regular", "payload": g, "cache": cache, "solver": "stub"})
@@ -348,7 +440,10 @@ def run_shard(shard):
     hdriver.install_logging()
     hdriver.install_uid()
     acc = Acc(max_violations=30)
-    run_group(acc, shard["kind"], shard["payload"], shard["cache"], shard["solver"])
+    if shard["kind"] == "shared":
+        check_shared_history(acc, shard["payload"], shard["cache"])
+    else:
+        run_group(acc, shard["kind"], shard["payload"], shard["cache"], shard["solver"])
     return acc.result()
 
 
@@ -363,6 +458,7 @@ def coverage(tier, merged):
         "assertions_matched_after_simplification": c.get("assertions_simplified", 0),
         "dump_files_checked": c.get("dump_files", 0),
         "queries_of_paths_extending_a_sliced_setup_or_frontier_state": c.get("paths_extending_sliced_state", 0),
+        "history_queries_compared_with_solo_runs": c.get("history_queries_compared", 0),
         "refinements_checked": c.get("refinements", 0),
         "refined_definitions_checked": c.get("definitions_checked", 0),
         "definition_evaluations": c.get("definition_evaluations", 0),
@@ -376,6 +472,9 @@ def replay(case):
     hdriver.install_uid()
     _DEFS_CHECKED.clear()
     acc = Acc()
-    run_group(acc, case["kind"], case["payload"], case["cache"], case["solver"])
+    if case["kind"] == "shared":
+        check_shared_history(acc, case["order"], case["cache"])
+    else:
+        run_group(acc, case["kind"], case["payload"], case["cache"], case["solver"])
     v = acc.result()["violations"]
     return {"violated": bool(v), "obs": [x["what"] for x in v][:3], "key": v[0]["key"] if v else ""}
